@@ -610,6 +610,40 @@ func (a *c15) ringHelper(h, ptSim *types.Func) {
 			if adv[0] == nil || adv[1] == nil || adv[0] != adv[1] {
 				bad = "the two ring cursors are not both advanced by the same successor function on every step"
 			}
+			// anchors: each cursor starts at a position computed from its own ring alone, by the same
+			// function for both rings (the comparison is then symmetric and independent of the start vertex)
+			var anc [2]*types.Func
+			for k := 0; k < 2; k++ {
+				ds := sc.defs[cur[k]]
+				var init ast.Expr
+				for _, d := range ds {
+					if d != nil && !(l.Body.Pos() <= d.Pos() && d.End() <= l.Body.End()) {
+						init = d
+					}
+				}
+				call, ok := unparen(init).(*ast.CallExpr)
+				if init == nil || !ok {
+					continue
+				}
+				own := true
+				for _, arg := range call.Args {
+					ast.Inspect(arg, func(n ast.Node) bool {
+						if id, ok := n.(*ast.Ident); ok {
+							if o := objOf(a.info, id); o != nil && o == ps[1-k] {
+								own = false
+							}
+						}
+						return true
+					})
+				}
+				if !own {
+					bad = "the start position of the cursor over `" + ps[k].Name() + "` is computed from the other ring (`" + src(init) + "`): the two rings are not treated alike, so a.Similar(b) and b.Similar(a) can differ and a rotated copy of a ring with a repeated vertex is not recognised"
+				}
+				anc[k] = callee(a.info, call)
+			}
+			if bad == "" && (anc[0] == nil || anc[1] == nil || anc[0] != anc[1]) {
+				bad = "the two ring cursors do not start at anchors computed by one function of each ring"
+			}
 		}
 	}
 	switch {
